@@ -32,6 +32,13 @@ namespace verif {
 
 enum { NOTSTARTED, WAITING, RUNNING, FINISHED };
 
+struct ObjInfo {
+    const void* lo; const void* hi;   // address range of the object (its counter lives inside)
+    void* raw;                        // for the deferred release
+    bool live;                        // no Deleter call yet
+    int held, in_flight, dtor_calls;
+};
+
 struct Sched {
     std::mutex m;
     std::condition_variable cv;
@@ -42,12 +49,14 @@ struct Sched {
     std::vector<char> at_start;
     // log + bookkeeping, touched only by the thread that holds the baton (or by main while inactive)
     std::vector<std::string> events;
-    int held_total = 0, in_flight = 0;
-    std::vector<char> releasing;   // thread has begun to release a handle but its decrement has not happened yet
-    int dtor_calls = 0;
-    bool obj_live = false;
+    std::vector<ObjInfo> objs;
+    std::vector<int> releasing;   // per thread: object whose handle it has begun to release but not yet decremented (-1: none)
     std::string pbad;
     void flag(const std::string& s) { if (pbad.empty()) pbad = s; }
+    int obj_of(const void* a) const {
+        for (size_t i = 0; i < objs.size(); ++i) if (a >= objs[i].lo && a < objs[i].hi) return static_cast<int>(i);
+        return -1;
+    }
 } S;
 
 thread_local int tid = 0;
@@ -66,9 +75,11 @@ void sched_point() {
     wait_turn(tid, false);
 }
 
-void log_rmw(char kind, unsigned long old_value) {
-    if (kind == 'S' && tid >= 0 && tid < static_cast<int>(S.releasing.size())) S.releasing[tid] = 0;
-    S.events.push_back(std::string(1, kind) + "," + std::to_string(tid) + "," + std::to_string(old_value));
+void log_rmw(char kind, unsigned long old_value, const void* addr) {
+    int o = S.obj_of(addr);
+    if (kind == 'S' && tid >= 0 && tid < static_cast<int>(S.releasing.size()) && S.releasing[tid] == o) S.releasing[tid] = -1;
+    if (o >= 0 && !S.objs[o].live && kind != 'L') S.flag("counter of a destroyed object modified");
+    S.events.push_back(std::string(1, kind) + "," + std::to_string(tid) + "," + std::to_string(old_value) + "," + std::to_string(o));
 }
 
 static void log_ev(const std::string& e) { S.events.push_back(e); }
@@ -78,31 +89,49 @@ static void log_ev(const std::string& e) { S.events.push_back(e); }
 using verif::S;
 
 struct Obj : public tlx::ReferenceCounter {
+    int id;
     int payload;
     int* heap;
-    explicit Obj(int x) : payload(x), heap(new int(x)) { S.obj_live = true; }
-    Obj(const Obj&) = delete;
+    void reg() {
+        id = static_cast<int>(S.objs.size());
+        S.objs.push_back(verif::ObjInfo{this, reinterpret_cast<const char*>(this) + sizeof(Obj), this, true, 0, 0, 0});
+    }
+    explicit Obj(int x) : payload(x), heap(new int(x)) { reg(); }
+    // the element's copy constructor is what unify() runs between its !unique() test and the release of the original:
+    // a scheduling point, logged as "K,<thread>,<original>,<clone>" (for the original object: a read through the handle)
+    Obj(const Obj& o) : tlx::ReferenceCounter(o), payload(o.payload), heap(nullptr) {
+        verif::sched_point();
+        reg();
+        verif::log_ev("K," + std::to_string(verif::tid) + "," + std::to_string(o.id) + "," + std::to_string(id));
+        if (!S.objs[o.id].live) S.flag("unify() copies a destroyed object");
+        heap = new int(S.objs[o.id].live ? *o.heap : 0);
+        // from here on the unifying thread is releasing its handle to the original
+        --S.objs[o.id].held;
+        S.releasing[verif::tid] = o.id;
+    }
+    Obj& operator=(const Obj&) = delete;
     ~Obj() { delete heap; heap = nullptr; }
 };
 
-// The Deleter handed to CountingPtr: it COUNTS its calls (exactly one is allowed) and checks that no handle is left;
-// the memory is released by the harness after all threads have finished, so that a second call or a late access to
-// the counter is reported as a property violation with its schedule instead of crashing the process.
-static Obj* g_pending_free = nullptr;
+// The Deleter handed to CountingPtr: it COUNTS its calls per object (exactly one is allowed) and checks that no handle is
+// left; the memory is released by the harness after all threads have finished, so that a second call or a late access
+// to the counter is reported as a property violation with its schedule instead of crashing the process.
 struct CountingDeleter {
-    void operator()(Obj* p) const noexcept {
+    void operator()(const Obj* p) const noexcept {
         verif::sched_point();                      // other threads may run between the decrement and the Deleter
-        verif::log_ev("D," + std::to_string(verif::tid));
-        ++S.dtor_calls;
-        if (!S.obj_live) S.flag("Deleter called twice on the same object");
-        if (S.held_total != 0 || S.in_flight != 0) S.flag("object destroyed while a handle remains");
+        verif::ObjInfo& I = S.objs[p->id];
+        verif::log_ev("D," + std::to_string(verif::tid) + "," + std::to_string(p->id));
+        ++I.dtor_calls;
+        if (!I.live) S.flag("Deleter called twice on the same object");
+        if (I.held != 0 || I.in_flight != 0) S.flag("object destroyed while a handle remains");
         for (size_t u = 0; u < S.releasing.size(); ++u)
-            if (static_cast<int>(u) != verif::tid && S.releasing[u]) S.flag("object destroyed while a handle remains (its release has not decremented yet)");
-        S.obj_live = false;
-        g_pending_free = p;
+            if (static_cast<int>(u) != verif::tid && S.releasing[u] == p->id) S.flag("object destroyed while a handle remains (its release has not decremented yet)");
+        I.live = false;
     }
 };
 using P = tlx::CountingPtr<Obj, CountingDeleter>;
+using PCc = tlx::CountingPtr<const Obj, CountingDeleter>;       // converting overloads
+using PN = tlx::CountingPtrNoDelete<Obj>;                       // no-operation Deleter: counts, never deletes
 
 static void worker(int t, const std::string* prog, P* initial) {
     verif::tid = t;
@@ -111,33 +140,69 @@ static void worker(int t, const std::string* prog, P* initial) {
         std::vector<P> hs;
         hs.reserve(64);
         hs.push_back(std::move(*initial));           // move: no shared access
-        auto drop_begin = [&] { --S.held_total; S.releasing[t] = 1; };
-        auto drop_end = [&] { S.releasing[t] = 0; };
+        std::string T = std::to_string(t);
+        auto oid = [&](const P& h) { return h.get()->id; };
+        auto copy_begin = [&](int o) { verif::log_ev("CS," + T + "," + std::to_string(o)); ++S.objs[o].in_flight; };
+        auto copy_end = [&](int o) { --S.objs[o].in_flight; ++S.objs[o].held; };
+        auto drop_begin = [&](int o) { --S.objs[o].held; S.releasing[t] = o; };
+        auto drop_end = [&] { S.releasing[t] = -1; };
         for (char c : *prog) {
             if (hs.empty() || !hs.back()) break;
-            if (c == 'C') {
-                verif::log_ev("CS," + std::to_string(t)); ++S.in_flight;
-                hs.emplace_back(hs.back());
-                --S.in_flight; ++S.held_total;
-            }
-            else if (c == 'c') {
-                verif::log_ev("CS," + std::to_string(t)); ++S.in_flight;
-                P x;
-                x = hs.back();
-                --S.in_flight; ++S.held_total;
-                hs.push_back(std::move(x));
-            }
-            else if (c == 'D') { drop_begin(); hs.pop_back(); drop_end(); }
-            else if (c == 'r') { drop_begin(); hs.back().reset(); drop_end(); hs.pop_back(); }
-            else if (c == 'x') { drop_begin(); hs.back() = P(); drop_end(); hs.pop_back(); }
-            else if (c == 'U') {
+            int o = oid(hs.back());
+            if (c == 'C') { copy_begin(o); hs.emplace_back(hs.back()); copy_end(o); }                        // copy constructor
+            else if (c == 'c') { copy_begin(o); P x; x = hs.back(); copy_end(o); hs.push_back(std::move(x)); } // copy assignment, move constructor
+            else if (c == 'D') { drop_begin(o); hs.pop_back(); drop_end(); }                                  // destructor
+            else if (c == 'r') { drop_begin(o); hs.back().reset(); drop_end(); hs.pop_back(); }               // reset
+            else if (c == 'x') { drop_begin(o); hs.back() = P(); drop_end(); hs.pop_back(); }                 // move assignment over it
+            else if (c == 'U') {                                                                              // * and ->
                 verif::sched_point();
-                verif::log_ev("U," + std::to_string(t));
-                if (!S.obj_live) S.flag("use of a destroyed object through a handle");
-                else if (*hs.back()->heap != hs.back()->payload) S.flag("payload damaged");
+                verif::log_ev("U," + T + "," + std::to_string(o));
+                if (!S.objs[o].live) S.flag("use of a destroyed object through a handle");
+                else if (*hs.back()->heap != (*hs.back()).payload) S.flag("payload damaged");
+            }
+            else if (c == 'u') {                                                                              // unify
+                hs.back().unify();
+                if (!hs.back()) S.flag("unify() emptied the handle");
+                else if (oid(hs.back()) != o) { ++S.objs[oid(hs.back())].held; if (hs.back()->payload != 41) S.flag("unify() lost the payload"); }
+                S.releasing[t] = -1;
+            }
+            else if (c == 'q') {                                                                              // observers
+                bool u = hs.back().unique(); size_t uc = hs.back().use_count();
+                if (uc < 1 || (u && !S.objs[o].live)) S.flag("use_count()/unique() on a held handle");
+                const P& h = hs.back();
+                if (!(h == h) || h != h || h < h || !(h <= h) || h > h || !(h >= h) || !(h == h.get()) || !h.valid() || h.empty() || !static_cast<bool>(h))
+                    S.flag("observers inconsistent");
+            }
+            else if (c == 'm') { P y(std::move(hs.back())); if (hs.back()) S.flag("moved-from handle not empty"); hs.back() = std::move(y); }   // move ctor + move assign
+            else if (c == 's') {                                                                              // swap (member and free)
+                if (hs.size() >= 2) { hs.back().swap(hs[hs.size() - 2]); swap(hs.back(), hs[hs.size() - 2]); hs.back().swap(hs[hs.size() - 2]); }
+                else { P e; hs.back().swap(e); hs.back().swap(e); }
+            }
+            else if (c == 'k') {                                                                              // converting copy constructor, destructor of CountingPtr<const T>
+                copy_begin(o); PCc y(hs.back()); copy_end(o);
+                PCc z; z = y;                                              // converting-free copy assignment: a second count
+                { copy_begin(o); }                                         // (logged before the fact is fine: z = y above already ran) -- see below
+                drop_begin(o); y.reset(); drop_end();
+                drop_begin(o); z.reset(); drop_end();
+            }
+            else if (c == 'K') {                                                                              // converting move constructor / move assignment
+                copy_begin(o); P tmp(hs.back()); copy_end(o);
+                PCc y(std::move(tmp));
+                PCc z; z = P(std::move(hs.back())); hs.back() = P();        // moves only (z takes the thread's handle as const)
+                P back(const_cast<Obj*>(z.get()));                           // cannot convert back: re-acquire from the raw pointer
+                (void)back;
+                drop_begin(o); y.reset(); drop_end();
+            }
+            else if (c == 'n') {                                                                              // a no-delete handle on the same object
+                copy_begin(o); PN x(hs.back().get()); copy_end(o);
+                PN y(std::move(x)); if (x) S.flag("moved-from handle not empty");
+                if (y.use_count() < 2) S.flag("a no-delete handle is not counted");
+                drop_begin(o); y.reset(); drop_end();
             }
         }
-        while (!hs.empty()) { drop_begin(); hs.pop_back(); drop_end(); }
+        while (!hs.empty()) {
+            if (hs.back()) { drop_begin(oid(hs.back())); hs.pop_back(); drop_end(); } else hs.pop_back();
+        }
     }
     std::unique_lock<std::mutex> lk(S.m);
     S.state[t] = verif::FINISHED;
@@ -151,19 +216,19 @@ struct RunResult { std::vector<int> taken, width; std::string trace; std::string
 static RunResult run_once(const std::vector<std::string>& progs, const std::vector<int>& prefix, verif::Rng* rng) {
     int n = static_cast<int>(progs.size());
     RunResult R;
-    S.n = n; S.releasing.assign(n, 0); S.state.assign(n, verif::NOTSTARTED); S.at_start.assign(n, 0); S.current = -1;
-    S.events.clear(); S.held_total = 0; S.in_flight = 0; S.dtor_calls = 0; S.obj_live = false; S.pbad.clear(); g_pending_free = nullptr;
+    S.n = n; S.releasing.assign(n, -1); S.state.assign(n, verif::NOTSTARTED); S.at_start.assign(n, 0); S.current = -1;
+    S.events.clear(); S.objs.clear(); S.pbad.clear();
     S.active = false; verif::tid = 0;
     std::vector<P> init(n);                            // empty handles
     {
         P root(new Obj(41));
         S.events.clear();                              // the model starts after the first handle exists
-        S.held_total = 1;
+        S.objs[0].held = 1;
         for (int t = 1; t < n; ++t) {
-            verif::log_ev("CS,0"); ++S.in_flight;
+            verif::log_ev("CS,0,0"); ++S.objs[0].in_flight;
             init[t] = P(root);                         // copy-construct a temporary (the increment), move it into the empty slot
-            --S.in_flight; ++S.held_total;
-            verif::log_ev("G,0," + std::to_string(t));
+            --S.objs[0].in_flight; ++S.objs[0].held;
+            verif::log_ev("G,0," + std::to_string(t) + ",0");
         }
         init[0] = std::move(root);
     }
@@ -198,14 +263,18 @@ static RunResult run_once(const std::vector<std::string>& progs, const std::vect
     for (auto& t : th) t.join();
     S.active = false; verif::tid = 0;
     init.clear();
-    Obj* raw_obj = g_pending_free; g_pending_free = nullptr;
-    if (raw_obj) delete raw_obj;                      // the deferred release (at most once, whatever the Deleter count)
-    if (S.dtor_calls == 0) S.flag("object never destroyed although every handle is gone");
-    else if (S.dtor_calls > 1) S.flag("object destroyed more than once");
-    if (S.held_total != 0) S.flag("harness bookkeeping: handles left");
+    std::ostringstream dt;
+    for (size_t i = 0; i < S.objs.size(); ++i) {
+        verif::ObjInfo& I = S.objs[i];
+        if (I.dtor_calls == 0) S.flag("object " + std::to_string(i) + " never destroyed although every handle is gone");
+        else if (I.dtor_calls > 1) S.flag("object " + std::to_string(i) + " destroyed more than once");
+        if (I.held != 0 || I.in_flight != 0) S.flag("handles left at the end (object " + std::to_string(i) + ")");
+        dt << (i ? "." : "") << I.dtor_calls;
+        delete static_cast<Obj*>(I.raw);              // the deferred release (exactly once per object, whatever the Deleter count)
+    }
     std::ostringstream o;
     for (size_t i = 0; i < S.events.size(); ++i) o << (i ? " " : "") << S.events[i];
-    o << " ; dtor=" << S.dtor_calls << " live=" << (S.obj_live ? 1 : 0);
+    o << " ; dtor=" << dt.str();
     R.trace = o.str();
     R.verdict = S.pbad.empty() ? "ok" : "bad:" + S.pbad;
     return R;
